@@ -58,6 +58,10 @@ def components(chk, prog):
     scan.analyse(obs, prog)
     n = 0
     for o in obs.items:
+        # not taken: the two Mask obligations about situations masked iteration never creates (an inner step returning a Mask; a CONCRETE False flag -
+        # under scan the flags are always traced)
+        if o["rule"] in ("BUILD-PRECOND", "BRANCH-EFFECT") and o["instance"].startswith("Mask."):
+            continue
         if o["props"] & {"C12", "C14", "C15", "C16"}:
             n += 1
             chk.require(o["ok"], o["rule"], o["instance"], o["construct"], derived=o["derived"], expected=o["expected"], where=o["where"])
